@@ -11,6 +11,16 @@ CLAIMED = {
             "Seeded search over operation histories and thread interleavings of the real LruCache/ObjectCache code; every schedule's history is checked for linearizability against a 40-line reference LRU, sequential histories op by op. Sampling, not enumeration: a clean run is evidence, not proof.",
             "Trusts shuttle's scheduler model (sequentially consistent atomics/locks) and the reference LRU as the meaning of 'least recently used'.",
             "DESIGN.md §4 C29, §3"),
+    "C04": ("exploration",
+            "deterministic simulation: seeded append-only revision histories from a synthetic writer, read back through a fault-injecting byte source after every revision and compared with a reference map",
+            "Seeded search over histories of 1-6 revisions (redefine / free / re-add; xref table or stream per revision; objects plain or in object streams), every prefix opened through SimSource (fault-free and short reads at every offset) under all four presets and compared object by object with a reference map known by construction; a recovery variant damages the stored xref data so the header scan is used.",
+            "Trusts the harness's synthetic PDF writer (sim/simcheck/src/synth.rs) to emit valid files; ground truth is by construction, never read back through the library.",
+            "DESIGN.md §4 C04, §2"),
+    "C19": ("fault_enumeration",
+            "deterministic simulation: enumerated stored-image fault catalogue (D1-D12 + sampled pairs) on the xref section, intact run as reference",
+            "For every sampled valid file the complete single-damage catalogue (60-110 instances) and sampled ordered pairs are applied to the stored image; each damaged image is opened with recovery enabled (through SimSource, also with short reads) and catalog, page count and every object are compared with the intact image. The library's own tracing event tells whether recovery was entered, which separates the one known root cause (damaged table accepted, recovery never entered) from unfaithful recovery.",
+            "The intact file as read by the library is the reference. Files and damage pairs are sampled by seed; single damages are exhausted per file. Known findings (known_findings.jsonl) cover the 'accepted-damaged-xref' family only.",
+            "DESIGN.md §4 C19, §2.2"),
     "C22": ("exploration",
             "deterministic simulation: shuttle seeded random/PCT schedules of the real worker pool with injected job failures, panics and cancellation",
             "Seeded search over schedules of dispatcher, 1-4 workers, collector, progress poller and a canceller thread, with job outcome vectors over {Ok, Err, Panic}; oracles O1-O6 over the recorded history; deadlock and bounded-progress detection by the scheduler.",
